@@ -173,21 +173,24 @@ def fits(x, w=G96_W, d=G96_D, strict=False):
     return len(f"{float(x):.{d}f}") <= (w - 1 if strict else w)
 
 
-def g96_text_requests(c, text, title, labels, xyz, vel, box, boxraw=None, what="written g96"):
+def g96_text_requests(c, text, title, labels, xyz, vel, box, boxraw=None, what="written g96", empty_box=False):
     """Compare the text of a .g96 file with the skeleton + the model's lines."""
     lines = text.split("\n")
     n = len(labels)
-    exp_len = 3 + 1 + n + 1 + 1 + (n if vel is not None else 0) + 1 + ((3 if (box is not None or boxraw is not None) else 0)) + 1
-    skeleton_ok = len(lines) == exp_len and lines[-1] == ""
+    nvel = n if vel is not None else 0
+    has_box = box is not None or boxraw is not None
     pos0 = 4
     vel0 = pos0 + n + 2
-    box0 = vel0 + (n if vel is not None else 0) + 1
-    if skeleton_ok:
-        fixed = {0: "TITLE", 1: title, 2: "END", 3: "POSITION", pos0 + n: "END", pos0 + n + 1: "VELOCITY", box0 - 1: "END"}
-        if box is not None or boxraw is not None:
-            fixed.update({box0: "BOX", box0 + 2: "END"})
-        skeleton_ok = all(lines[i] == t for i, t in fixed.items())
-    if not skeleton_ok:
+    box0 = vel0 + nvel + 1
+    fixed = {0: "TITLE", 1: title, 2: "END", 3: "POSITION", pos0 + n: "END", pos0 + n + 1: "VELOCITY", box0 - 1: "END"}
+    exp_len = box0 + 1
+    if has_box:
+        fixed.update({box0: "BOX", box0 + 2: "END"})
+        exp_len = box0 + 4
+    elif empty_box:
+        fixed.update({box0: "BOX", box0 + 1: "END"})
+        exp_len = box0 + 3
+    if not (len(lines) == exp_len and lines[-1] == "" and all(lines[i] == t for i, t in fixed.items())):
         c.ask(["rd 0 0"], lambda a: f"{what}: section skeleton differs from TITLE/POSITION/VELOCITY/BOX layout: {text[:300]!r}")
         return
     for i in range(n):
@@ -277,7 +280,7 @@ def case_g96(spec, tmp):
         GromacsEngine._reverse_velocities(types.SimpleNamespace(ext="g96"), f1, f2)
         text2 = rfile(f2)
         boxraw = text.split("\n")[4 + 2 * n + 4] if box is not None else None
-        g96_text_requests(c, text2, title, labels, xyz2, -1 * vel2, None, boxraw=boxraw, what="reversed g96")
+        g96_text_requests(c, text2, title, labels, xyz2, -1 * vel2, None, boxraw=boxraw, what="reversed g96", empty_box=True)
         revfit = allfit and boxfit and all(fits(-v) for v in vel2.flat)
         if revfit:
             try:
@@ -446,6 +449,9 @@ def case_xyz(spec, tmp):
                 c.fail(f"extracting frame {k} of {len(snaps)} produced a file")
             continue
         n2, p2, v2, b2 = snap_arrays(snaps[k])
+        if not os.path.exists(f2):
+            c.fail(f"extracting frame {k} of {len(snaps)} wrote no file")
+            continue
         t2 = rfile(f2)
         l2 = t2.splitlines(keepends=True)
         end = xyz_expected_requests(c, l2, 0, n2, p2, v2, b2, None, f"extracted xyz frame {k}")
@@ -745,7 +751,8 @@ def case_trr_decode(spec, tmp):
             if header["natoms"] != fr["natoms"] or header["step"] != fr.get("step", 0) or bits([header["time"], header["lambda"]]) != bits([hf(fr.get("time", 0.0)), hf(fr.get("lam", 0.0))]):
                 c.fail("TRR header fields decode to other values than were encoded")
             # the model's encoder produces the same bytes as struct
-            ints = [header[k] for k in __import__("infretis.classes.engines.gromacs", fromlist=["_HEAD_ITEMS"])._HEAD_ITEMS[:13]]
+            from infretis.classes.engines.gromacs import _HEAD_ITEMS
+            ints = [header[k] for k in _HEAD_ITEMS[:13]]
             r = ">d" if spec["double"] else ">f"
             blocks = ";".join("N" if fr.get(k) is None else ",".join(hx(struct.pack(r, hf(v))) for v in fr[k]) for k in TRR_KEYS)
             first = trr_frame_bytes(e, spec["double"], fr)
@@ -1072,7 +1079,13 @@ def cp2k_tree_oracle(c, text, updates, removes, res, res2):
     got = canon_forest(parse_cp2k(res))
     if got != exp:
         c.fail(f"edited CP2K input differs from the requested edit (as trees): got {got}, expected {exp}")
-    idem = all(replace or not setts for _, setts, replace, _, _, _ in updates)
+    # a second application is claimed to be a no-op when nothing is appended to the settings and every
+    # target still names its section in the output (the key of a section depends on whether a sibling
+    # with the same title exists, so removing / creating such a sibling renames it; a target that is
+    # also removed is re-created together with its missing parents by a second run)
+    idx1 = tree_index(parse_cp2k(res)) or {}
+    idem = all((replace or not setts) and tgt in idx1 for tgt, setts, replace, _, _, _ in updates)
+    c.tags.append("cp2k_idempotence_claimed" if idem else "cp2k_idempotence_not_claimed")
     if idem and res2 is not None and canon_forest(parse_cp2k(res2)) != got:
         c.fail(f"second application of update_cp2k_input changes the tree: {got} -> {canon_forest(parse_cp2k(res2))}")
 
@@ -1104,6 +1117,14 @@ def case_cp2k_tree(spec, tmp):
         it = canon_forest(parse_cp2k(res))
         return None if mt == it else f"update_cp2k_input (as trees): model {mt} != implementation {it}"
     c.ask([f"cp2kapply {hxl(lines)} {ups} {hxl(removes)}"], chk)
+
+    def chk_again(ans):
+        if ans[0] == "N":
+            return "model: second application fails"
+        mt = canon_forest(parse_cp2k("\n".join(unhxl(ans[0]))))
+        it = canon_forest(parse_cp2k(res2))
+        return None if mt == it else f"second update_cp2k_input (as trees): model {mt} != implementation {it}"
+    c.ask([f"cp2kapply {hxl(res.split(chr(10)))} {ups} {hxl(removes)}"], chk_again)
     # node dictionary
     nodes = read_cp2k_input(src)
     ref = set_parents(nodes)
@@ -1289,7 +1310,7 @@ def generate(rng, tier):
     cases = []
     # A. fixed-point fields: the formats of /repo plus a zero-decimals format (exercises ties)
     for w, d in ((15, 9), (9, 4), (8, 3), (6, 0), (12, 5)):
-        vals = boundary_values(rng, w, d, 150 if q else 1500)
+        vals = boundary_values(rng, w, d, 150 if q else 4000)
         if d == 0:
             vals += [k + 0.5 for k in range(-12, 13)]
         for i in range(0, len(vals), 40):
@@ -1300,7 +1321,7 @@ def generate(rng, tier):
             for bc in ((rng.choice((0, 3, 9)),) if q else (0, 3, 9)):
                 pos, vel = gen_config(rng, n, mode)
                 cases.append(("g96", {"xyz": pos, "vel": vel, "box": gen_box(rng, bc, "negzero" if n % 5 == 0 else "plain"),
-                                      "names": rng.choice([["SOL", "OW"], ["ARG", "CA"], ["X", "Y"]]), "title": rng.choice(["t", "a title = 1", "  padded  "])}))
+                                      "names": rng.choice([["SOL", "OW"], ["ARG", "CA"], ["X", "Y"]]), "title": rng.choice(["t", "a title = 1", "  padded"])}))
     # single-value sweep across the width limit in every column
     for v in boundary_values(rng, G96_W, G96_D, 0):
         for col in range(3):
@@ -1339,12 +1360,14 @@ def generate(rng, tier):
             full = len(trr_frame_bytes(e, dbl, fr))
             cases.append(("trr_decode", {"endian": e, "double": dbl, "frames": [fr], "cuts": list(range(0, full + 1))}))
             fr2 = gen_trr_frame(rng, 2, ("x",), 1)
-            for bad in ({"magic": 1994}, {"magic": 0}, {"version": "GMX_trn_fild"}, {"version": "GMX", "slen": [4, 3]}, {"slen": [1, 12]}, {"slen": [0, 0]},
+            # a wrong magic number is only logged and the file then taken as little-endian (only generated
+            # for little-endian data: otherwise every size is garbage of the order 2^24..2^31)
+            for bad in (({"magic": 1994}, {"magic": 0}) if e == "<" else ()) + ({"version": "GMX_trn_fild"}, {"version": "GMX", "slen": [4, 3]}, {"slen": [1, 12]}, {"slen": [0, 0]},
                         {"slen": [14, 12]}, {"ints": {"10": 0}}, {"ints": {"7": 20}}, {"ints": {"7": 25}}, {"ints": {"2": 35}}, {"ints": {"2": 72, "7": 24}},
                         {"ints": {"7": 0, "8": 24 * (2 if dbl else 1)}}, {"ints": {"7": -24}}, {"ints": {"3": 36}}, {"ints": {"10": 1000}}):
                 cases.append(("trr_decode", {"endian": e, "double": dbl, "frames": [dict(fr2, **bad)]}))
     for nf in range(1, 5):
-        for rep in range(2 if q else 6):
+        for rep in range(2 if q else 20):
             nat = rng.randrange(1, 21)
             frames = [gen_trr_frame(rng, nat, rng.choice([("box", "x", "v"), ("box", "x", "v", "f"), ("box", "vir", "pres", "x", "v")] + ([("x",), ("box", "x")] if rep else [])), 10 * k) for k in range(nf)]
             cases.append(("trr_file", {"frames": frames, "g96_variant": rng.choice("<>"), "g96_double": rng.random() < 0.5}))
@@ -1355,9 +1378,12 @@ def generate(rng, tier):
         for r in range(len(MDP_KEYS) + 1):
             for ks in itertools.combinations(MDP_KEYS, r):
                 cases.append(("mdp", {"text": t, "settings": [[k, "9"] for k in ks]}))
-    for _ in range(300 if q else 4000):
+    for _ in range(300 if q else 12000):
         cases.append(("mdp", gen_mdp_random(rng)))
     # H. CP2K data lines: all sections of <= 2 (quick) / 3 lines over a small alphabet x all dicts over three keys
+    for dct in ([["STEPS", 50], ["TIMESTEP", 0.5]], [["MD", 10]], [["A", "x  y"], ["B", None]]):
+        cases.append(("cp2k_data", {"lines": [], "data": dct, "new": True}))
+        cases.append(("cp2k_data", {"lines": ["STEPS 1", "MD 2 3"], "data": dct, "new": False}))
     alpha = ["A 1", "AB 2", "A", "B x y", "  A   7", "C  3"]
     secs = [[]] + [list(t) for k in range(1, 3 if q else 4) for t in itertools.product(alpha, repeat=k)]
     dicts = [[]]
@@ -1372,9 +1398,6 @@ def generate(rng, tier):
             cases.append(("cp2k_data", {"lines": sec, "data": dct, "new": False}))
     for dct in dicts:
         cases.append(("cp2k_data", {"lines": [], "data": dct, "new": True}))
-    for dct in ([["STEPS", 50], ["TIMESTEP", 0.5]], [["MD", 10]], [["A", "x  y"], ["B", None]]):
-        cases.append(("cp2k_data", {"lines": [], "data": dct, "new": True}))
-        cases.append(("cp2k_data", {"lines": ["STEPS 1", "MD 2 3"], "data": dct, "new": False}))
     # I. CP2K trees (nested / repeated sections, comments, blank lines, mixed case)
     fixed_tree = ("&GLOBAL\n  PROJECT x\n&END GLOBAL\n&MOTION\n  &MD\n    STEPS 10\n  &END MD\n&END MOTION\n&FORCE_EVAL\n &SUBSYS\n  &KIND H\n    MASS 1\n  &END KIND\n"
                   "  &KIND O\n    MASS 16\n  &END KIND\n &END SUBSYS\n&END FORCE_EVAL\n")
@@ -1384,7 +1407,7 @@ def generate(rng, tier):
                        ["GLOBAL", [], True, False, [], ["PROJECT y", "RUN_TYPE MD"]]], ["EXT_RESTART", "FORCE_EVAL->SUBSYS->COORD"]),
                      ([], ["MOTION"]), ([], [])):
         cases.append(("cp2k_tree", {"text": fixed_tree, "updates": ups, "removes": rms}))
-    for _ in range(250 if q else 3000):
+    for _ in range(250 if q else 10000):
         cases.append(("cp2k_tree", gen_cp2k_tree(rng)))
     # J. LAMMPS input templates
     small = ["variable dt equal infretis_timestep\n", "run infretis_nsteps\n", "# infretis_timestep infretis_timestep\n", "\n", "  fix 1 all nve\n"]
@@ -1393,7 +1416,7 @@ def generate(rng, tier):
             for r in range(3):
                 for ks in itertools.combinations(LMP_VARS[:3], r):
                     cases.append(("lammps_in", {"text": "".join(t), "settings": [[kk, "7"] for kk in ks]}))
-    for _ in range(300 if q else 3000):
+    for _ in range(300 if q else 8000):
         cases.append(("lammps_in", gen_lammps_in(rng)))
     return cases
 
@@ -1443,6 +1466,7 @@ def run(ctx):
     finally:
         common.rmtree(tmp)
     rep_o, rep_c, ncorr, nreq = {}, {}, 0, 0
+    kinds_with_input = {c.kind for c, _ in results if c.oracle}
     for c, cerr in results:
         ctx.count((c.kind, json.dumps(c.spec, sort_keys=True)), nontrivial=bool(c.groups))
         ctx.dist(c.kind)
@@ -1456,7 +1480,9 @@ def run(ctx):
         elif cerr:
             ncorr += 1
             rep_c[c.kind] = rep_c.get(c.kind, 0) + 1
-            if rep_c[c.kind] <= MAXREP:
+            # DESIGN 2.4: a broken correspondence triggers the search for a failing input of the property;
+            # when the oracle exhibits one for this codec, that input is the report
+            if rep_c[c.kind] <= MAXREP and c.kind not in kinds_with_input:
                 ctx.violation(f"correspondence model/implementation broken ({c.kind}; the oracle found no failing input for this case): {cerr}",
                               {"kind": c.kind, "spec": c.spec, "correspondence": cerr}, False)
     seen = set()
